@@ -317,9 +317,10 @@ def resumeSoupClose (a : ACfg) (s : St) (t : Sess.Tid) : St :=
         | k + 1 => { s with cpc := .user k }
   | _ => s
 
-/-- the application session is constructed in the step in which `login()` returned the session -/
+/-- the application session is constructed in the step in which `login()` returned the session (an active one: `set_handlers`
+    raises `StateError` on a session that is closed or closing) -/
 def construct (a : ACfg) (s : St) : St :=
-  if !s.built && s.inner.status .D != .absent then
+  if !s.built && s.inner.status .D != .absent && !s.inner.closed && !s.inner.closingTask then
     let s := { s with built := true }
     if a.hasMsgCb then ({ s with disp2Set := true }).spawn2 .D2 .dispLoop else s
   else s
